@@ -77,7 +77,13 @@
                               (AcceptedWriteReturnsOK; signal.go l.230-231).
 
    The complete schedules of this module are exported by GenPropertySteps and
-   forced on the real code with the gates.                                     *)
+   forced on the real code with the gates.
+
+   Not a step of this module, by design: a subscriber asking for ANOTHER signal of the
+   object under the user id its property subscription holds (refused by the code: an id
+   in use), and cancelling it again if it was acknowledged.  The property's subscribers
+   are unchanged either way; the churn replay performs the pair in every other schedule
+   and demands the schedule's expectations as they are (harness c14churn.go). *)
 EXTENDS Integers, Sequences, FiniteSets, TLC
 
 CONSTANTS
